@@ -258,7 +258,7 @@ def replay_file(prop: str, path: str):
 
 def write_evidence(prop, tier, seed, level, coverage, wall, violations, assumptions):
     # evidence describes /repo itself: a trial against a scratch tree (VERIF_REPO) writes elsewhere
-    scratch = os.path.realpath(os.environ.get("VERIF_REPO") or "/repo") != os.path.realpath("/repo")
+    scratch = os.path.realpath(os.environ.get("VERIF_REPO") or "/repo") != os.path.realpath("/repo") or os.environ.get("VERIF_SEEDED_TRIAL") == "1"
     evdir = os.path.join(VERIF, "failures", "scratch-evidence") if scratch else os.path.join(VERIF, "evidence")
     os.makedirs(evdir, exist_ok=True)
     ev = {
